@@ -191,3 +191,63 @@ def zeroed_weights(ctx):
         good = bool(nn) and unparse(nn[0].value) == 'sum(weights)' and bool(nz) and [unparse(a) for a in nz[-1].value.args] == [var, 'n'] and \
             nn[0].lineno < (ws[0].lineno if ws else 0)
         ctx.check(good, name + '#total', 'total weight captured first and restored by normalize(., n)', '%s no longer restores the total weight of its input' % name, f, nz[-1] if nz else f.node)
+
+
+@rule('C18.e', min_instances=4)
+def conservative_collapse(ctx):
+    """impose_collapse moves weight conservatively: each collapsed weight is read into the group's accumulator and zeroed in the same step (so overlapping groups cannot count it twice), and the accumulator is written back to the surviving index before the next group; normalize / impose_sum / impose_product / impose_weight_norm keep their confirmed scaling"""
+    from .c18_refs import REFS
+    f = ctx.func(MS + ':impose_collapse')
+    # structural clause first: read-and-zero of weights[k] share one innermost loop body, write-back in the enclosing one
+    loops = [n for n in walk_no_nested(f.node) if isinstance(n, ast.For)]
+    zero = []
+    for lp in loops:
+        for s in lp.body:
+            if isinstance(s, ast.Assign) and isinstance(s.targets[0], ast.Subscript) and unparse(s.targets[0].value) == 'weights' and \
+                    isinstance(s.value, ast.Call) and [const_value(a) for a in s.value.args] == [0.0]:
+                zero.append((lp, s))
+    ctx.need(bool(zero), 'impose_collapse: no zeroing store `weights[k] = type(v)(0.0)` found in a loop body')
+    for lp, s in zero:
+        key = unparse(s.targets[0])
+        before = lp.body[:lp.body.index(s)]
+        bld = T.Builder()
+        keyt = T.simp(bld.t(s.targets[0]))
+        moved = []
+        for b_ in before:
+            # `v += weights[k]`, possibly through a temporary or spelled `v = v + weights[k]`
+            if isinstance(b_, ast.AugAssign) and isinstance(b_.op, ast.Add) and T.simp(bld.t(b_.value)) == keyt:
+                moved.append(b_)
+            elif isinstance(b_, ast.Assign) and isinstance(b_.targets[0], ast.Name) and isinstance(b_.value, ast.BinOp) and isinstance(b_.value.op, ast.Add) and \
+                    T.simp(bld.t(b_.value)) == T.simp(T.padd(bld.t(b_.targets[0]), keyt)):
+                moved.append(b_)
+            else:
+                bld.exec_stmt(b_)
+        ctx.check(bool(moved), 'impose_collapse#atomic-move', '%s is accumulated and zeroed in the same step' % key,
+                  'impose_collapse zeroes %s without having accumulated it in the same step (overlapping groups would count or drop weight twice)' % key, f, s)
+    _ref(ctx, MS + ':impose_collapse', REFS[MS + ':impose_collapse'], 'per group: v = w[i]; for k: v += w[k]; w[k] = 0; x[k] = x[i]; then w[i] = v')
+    for name, what in (('normalize', 'weights / norm * mass, zero-sum handling'), ('impose_weight_norm', 'mean captured, normalize, mean restored'),
+                       ('impose_sum', 'normalize(weights, mass, zsum, zmass)'), ('impose_product', 'weights / (prod/mass)**(1/n)')):
+        _ref(ctx, '%s:%s' % (MS, name), REFS['%s:%s' % (MS, name)], what)
+
+
+@rule('C18.f', min_instances=27)
+def textbook_definitions(ctx):
+    """the remaining statistics and metrics keep their confirmed definitions: support / ess_* extrema over the supported points, expectation as weighted mean of f over supported points, median / mad / trimmed mean and variance with their shift/scale impose_* constructions, the L-p norm decision table and the Minkowski family of distances"""
+    from .c18_refs import REFS
+    what = {
+        'support_index': 'indices with weight > tol', 'support': 'samples with weight > tol',
+        'expectation': 'mean of f(x) weighted by w over |w| > tol', 'expected_variance': '_expected_moment(order=2)',
+        'ess_maximum': 'maximum over the support', 'ess_minimum': 'minimum over the support', 'ess_ptp': 'ptp over the support',
+        'maximum': 'max f(x)', 'minimum': 'min f(x)', 'ptp': 'max f(x) - min f(x)',
+        'median': 'weighted median', 'mad': 'median of |s - median|', 'impose_median': 's + (m - median)',
+        'impose_mad': 'scale by s/mad, median restored', 'tmean': 'trimmed weighted mean', 'tvariance': 'trimmed weighted variance',
+        'tstd': 'sqrt(tvariance)', 'impose_tmean': 's + (m - tmean)', 'impose_tvariance': 'scale by sqrt(v/tvar), tmean restored',
+        'impose_tstd': 'impose_tvariance(s**2)',
+        'Lnorm': 'p=0: count of nonzeros; p=inf: max|w|; else (sum |w|**p)**(1/p)', 'chebyshev': 'max |x - x\'|', 'hamming': 'count of differing coordinates',
+        'minkowski': '(sum |x - x\'|**p)**(1/p), p=inf -> chebyshev', 'euclidean': 'minkowski p=2', 'manhattan': 'minkowski p=1',
+        'absolute_distance': '|x - x\'| pointwise or pairwise',
+    }
+    for a, src in sorted(REFS.items()):
+        name = a.split(':')[1]
+        if name in what:
+            _ref(ctx, a, src, what[name])
